@@ -32,10 +32,15 @@ controller" and "does the loading ObjectSet own the slice".
 -/
 namespace Pko.Model.Chunk
 
-/-- A phase object: an identity and the length of its JSON encoding as measured by the chunker. -/
+/-- A phase object (`corev1alpha1.ObjectSetObject`): an identity, the length of the JSON encoding of `.object` as
+measured by the chunker, and a fingerprint `fp` of EVERYTHING ELSE the ObjectSetObject carries
+(`.collisionProtection`, `.conditionMappings`, the rest of the `.object` payload).  The model never looks into
+`fp`; it only copies objects around, and two objects are equal iff they agree in every field.  The harnesses
+compute the fingerprint of what the real code hands back by deep equality with the object the scenario built. -/
 structure Obj where
   id : Nat
   size : Option Nat
+  fp : Nat := 0
   deriving DecidableEq, Repr, Inhabited
 
 abbrev Chunks := List (List Obj)
@@ -199,15 +204,35 @@ def chunkPhases (limit : Nat) (strat : Strategy) (hash : List Obj → Nat → Na
 
 /-! ### deployment_reconciler.go: Reconcile and slice GC -/
 
+/-- `.spec.lifecycleState` of an ObjectSet. -/
+inductive Life where
+  | active | paused | archived
+  deriving DecidableEq, Repr, Inhabited
+
+/-- An ObjectSet that EXISTS in the API (the selector + namespace List returns it): its phases, its
+`.spec.lifecycleState` (set by the ObjectDeployment controller / a user; `archived` is set long before the ObjectSet
+controller has finished the teardown, which needs the slices), and whether its deletionTimestamp is set (it stays
+around, finalizer `package-operator.run/cached`, until its teardown — which loads the slices — is done). -/
+structure OSet (Name : Type) where
+  phases : Template Name
+  life : Life := .active
+  deleting : Bool := false
+  deriving DecidableEq, Repr
+
+/-- The slices an ObjectSet references — whatever its lifecycle / deletion state. -/
+def osRefs (os : OSet Name) : List Name := refs os.phases
+
 /-- The API objects `DeploymentReconciler.Reconcile` reads and writes. -/
 structure World (Name : Type) where
   deploy : Option (Template Name)         -- `.spec.template.spec.phases` of the ObjectDeployment, if it exists
   slices : Store Name
-  objectSets : List (Template Name)       -- the ObjectSets the selector + namespace List returns
+  objectSets : List (OSet Name)           -- the ObjectSets the selector + namespace List returns
 
-/-- `sliceGarbageCollection`: the labelled slices that neither the template nor a listed ObjectSet references. -/
-def gcDeletes (st : Store Name) (tmpl : Template Name) (objectSets : List (Template Name)) : List Name :=
-  let referenced := refs tmpl ++ objectSets.flatMap refs
+/-- `sliceGarbageCollection`: the labelled slices that neither the template nor a listed ObjectSet references.
+The loop `for _, objectSet := range objectSets` collects `phase.Slices` of EVERY listed ObjectSet: it looks neither
+at `.spec.lifecycleState` nor at the deletionTimestamp. -/
+def gcDeletes (st : Store Name) (tmpl : Template Name) (objectSets : List (OSet Name)) : List Name :=
+  let referenced := refs tmpl ++ objectSets.flatMap osRefs
   -- "List all Slices controlled by this Deployment" (label selector), "Delete Slices not referenced anymore"
   (names st).filter fun n => (match getSlice st n with | some s => s.lbl | none => false) && !(referenced.contains n)
 
@@ -225,14 +250,29 @@ def reconcile (limit : Nat) (strat : Strategy) (hash : List Obj → Nat → Name
     let del := gcDeletes st1 tmpl w.objectSets
     some ({ w with deploy := some tmpl, slices := erase st1 del }, true, del)
 
-/-- Environment: the ObjectDeployment controller creates a new ObjectSet revision from the current template. -/
+/-- Environment: the ObjectDeployment controller creates a new ObjectSet revision from the current template
+(active, not being deleted). -/
 def snap (w : World Name) : World Name :=
   match w.deploy with
   | none => w
-  | some t => { w with objectSets := w.objectSets ++ [t] }
+  | some t => { w with objectSets := w.objectSets ++ [{ phases := t }] }
 
-/-- Environment: an ObjectSet is deleted (revision history limit, user). -/
+/-- Environment: an ObjectSet is GONE from the API (deleted and all finalizers removed). -/
 def delos (w : World Name) (i : Nat) : World Name := { w with objectSets := w.objectSets.eraseIdx i }
+
+def modifyAt {α : Type} (f : α → α) : List α → Nat → List α
+  | [], _ => []
+  | a :: l, 0 => f a :: l
+  | a :: l, i + 1 => a :: modifyAt f l i
+
+/-- Environment: `.spec.lifecycleState` of the i-th ObjectSet is set (ObjectDeployment controller archiving an old
+revision / pausing; a user).  The ObjectSet still exists. -/
+def setLife (w : World Name) (i : Nat) (l : Life) : World Name :=
+  { w with objectSets := modifyAt (fun os => { os with life := l }) w.objectSets i }
+
+/-- Environment: the i-th ObjectSet is deleted but held by its finalizer (teardown not finished): it still exists. -/
+def markDeleting (w : World Name) (i : Nat) : World Name :=
+  { w with objectSets := modifyAt (fun os => { os with deleting := true }) w.objectSets i }
 
 /-! ### objectsliceload_reconciler.go -/
 
